@@ -51,7 +51,7 @@ def _hist(rng):
 TIMEQ = ['getTimes', 'getTimes_bounds', 'getTimes_tb', 'getTimes_tflag', 'getTimes_tau0', 'getTimes_dt64',
          'time2t_nearest', 'time2t_bounds', 'time2t_bounds_close']
 QUERIES = TIMEQ + ['val2idx_nearest', 'val2idx_bounds', 'val2idx_exact', 'repr', 'save', 'slice_dim', 'getvarpnc',
-           'pncrename', 'eval_bare', 'eval_expr']
+           'pncrename', 'eval_bare', 'eval_expr', 'eval_chain', 'eval_chain_assign']
 
 
 def _pure(rng):
@@ -64,7 +64,10 @@ def _pure(rng):
         op = c01._op(rng, st)
     else:
         op = ['query', rng.choice(QUERIES)]
-    return dict(kind='pure', spec=spec, op=op)
+    # reference times written with the hour only are units the library reads (06Z, 06 UTC, T06)
+    tunits = rng.choice(['hours since 2001-02-03 00:00:00+0000', 'hours since 2001-02-03 00:00:00+0000',
+                         'hours since 2001-02-03 06Z', 'hours since 2001-02-03 06 UTC', 'hours since 2001-02-03T06'])
+    return dict(kind='pure', spec=spec, op=op, tunits=tunits)
 
 
 def _iopure(rng):
@@ -218,6 +221,10 @@ def _query(f, q, spec):
         if not ks:
             return None
         return f.eval('NEWVAR = %s' % ks[0])
+    if q.startswith('eval_chain'):
+        if 'CHAIN' not in f.variables:
+            return None
+        return f.eval('NEWVAR = CHAIN', inplace=False, copyall=(len(f.variables) % 2 == 0))
     if q == 'eval_expr':
         ks = [k for k in f.variables if k not in coords and f.variables[k].ndim > 0]
         if not ks:
@@ -253,7 +260,7 @@ def impl(case):
             tv[:] = np.arange(n0) * 6. + 6
         else:
             tv = f.createVariable('time', 'd', (d0,))
-            tv.units = 'hours since 2001-02-03 00:00:00+0000'
+            tv.units = case.get('tunits', 'hours since 2001-02-03 00:00:00+0000')
             tv[:] = np.arange(n0) * 6.
             if q == 'getTimes_tb':
                 f.createDimension('nv', 2)
@@ -261,6 +268,15 @@ def impl(case):
                 tb.units = tv.units
                 tb[:, 0] = tv[:] - 3
                 tb[:, 1] = tv[:] + 3
+    if case['op'][0] == 'query' and case['op'][1].startswith('eval_chain'):
+        # the receiver is itself the result of an earlier step: a derived variable stored under another key
+        ks = [v['name'] for v in spec['vars'] if v['dims'] and v['dims'] != [v['name']]]
+        if ks:
+            with lib.pnc_warnings():
+                if case['op'][1] == 'eval_chain':
+                    f = f.eval('CHAIN = %s * 2' % ks[0], inplace=False, copyall=True)
+                else:
+                    f.variables['CHAIN'] = f.variables[ks[0]] * 2
     before = _snap(f)
     res = dict()
     with lib.pnc_warnings():
